@@ -31,7 +31,7 @@ NOT_DECIDED = ["peak memory / run time multiples (runtime quantities)", "allocat
                "cost of deep recursion on deeply nested XML/HTML/RTF", "range(n) loops whose body consumes input on every iteration (listed as residual)"]
 TRUSTED = ["defusedxml forbids entity expansion / DTD retrieval", "LZMADecompressor.decompress(data, max_length) returns at most max_length bytes",
            "Path.stat() follows symbolic links and reports the size of the object open() reads"]
-FLOORS = {"C12-REGEX": 1, "C12-EMPTY": 6, "C12-LIMIT": 10, "C12-AMP": 6, "C12-DECOMP": 2, "C12-XML": 2}
+FLOORS = {"C12-REGEX": 1, "C12-EMPTY": 6, "C12-LIMIT": 10, "C12-AMP": 6, "C12-DECOMP": 2, "C12-XML": 2, "C12-COST": 2}
 
 
 # ----------------------------------------------------------------------------------------------- LIMIT
@@ -696,4 +696,47 @@ def rule_regex(ctx: Ctx) -> RuleReport:
     return rep
 
 
-RULES = [rule_limit, rule_amp, rule_decomp, rule_xml, rule_empty, rule_regex]
+def rule_cost(ctx: Ctx) -> RuleReport:
+    """Two shapes that turn a linear pass into a quadratic one without changing any result: consuming a buffer by re-slicing it from the
+    front inside a loop (every step copies the rest), and membership tests against a list where one test is made per reference."""
+    rep = RuleReport("C12-COST", "no loop consumes a sequence by `x = x[k:]` (each step copies the remainder); the member-name collection that `in` tests consult is hash based")
+    n_loops = 0
+    for fi in ctx.p.all_functions():
+        if "/tests/" in fi.module.rel:
+            continue
+        for lp in [n for n in walk_own(fi.node) if isinstance(n, (ast.While, ast.For))]:
+            n_loops += 1
+            for a in ast.walk(lp):
+                if isinstance(a, ast.Assign) and len(a.targets) == 1 and isinstance(a.targets[0], ast.Name) and isinstance(a.value, ast.Subscript) and isinstance(a.value.value, ast.Name) \
+                        and a.value.value.id == a.targets[0].id and isinstance(a.value.slice, ast.Slice) and a.value.slice.lower is not None and a.value.slice.upper is None and a.value.slice.step is None:
+                    # a memoryview is sliced without copying
+                    mv = any(isinstance(d, ast.Assign) and any(isinstance(t, ast.Name) and t.id == a.targets[0].id for t in d.targets) and isinstance(d.value, ast.Call) and (dotted(d.value.func) or "") == "memoryview" for d in walk_own(fi.node))
+                    if mv:
+                        rep.ok({"loop": fi.qual, "front_slice_of": "memoryview (no copy)"})
+                    else:
+                        rep.fail(Finding("C12-COST", fi.module.rel, fi.qual, "buffer consumed by re-slicing: " + anorm(a, fi.node), f"`{short(a, 50)}` inside a loop copies the rest of the buffer at every step: a stream of n short records costs n^2/2 byte copies (0.8 MB of empty BIFF records: 2 s instead of 0.08 s); keep an offset instead", line=a.lineno))
+    rep.ok({"loops_scanned": n_loops})
+    # ZipContext: `name in self._namelist` is asked once per reference of a document (every picture, every relationship)
+    ZC = X + "util/zip_context.py"
+    zm = ctx.p.module(ZC)
+    tested = set()
+    for fi in zm.functions.values():
+        for c in ast.walk(fi.node):
+            if isinstance(c, ast.Compare) and len(c.ops) == 1 and isinstance(c.ops[0], (ast.In, ast.NotIn)) and isinstance(c.comparators[0], ast.Attribute) and isinstance(c.comparators[0].value, ast.Name) and c.comparators[0].value.id == "self":
+                tested.add(c.comparators[0].attr)
+    if not tested:
+        raise AnalysisError("C12-COST: ZipContext no longer tests membership in a collection of member names")
+    for attr in sorted(tested):
+        stores = [a for fi in zm.functions.values() for a in walk_own(fi.node) if isinstance(a, (ast.Assign, ast.AnnAssign)) and any(isinstance(t, ast.Attribute) and t.attr == attr and isinstance(t.value, ast.Name) and t.value.id == "self" for t in (a.targets if isinstance(a, ast.Assign) else [a.target]))]
+        for a in stores:
+            v = a.value
+            hashy = isinstance(v, (ast.Set, ast.SetComp, ast.Dict, ast.DictComp)) or (isinstance(v, ast.Call) and (dotted(v.func) or "") in ("set", "frozenset", "dict", "dict.fromkeys"))
+            rep.unit(f"{ZC}::{attr}")
+            if hashy:
+                rep.ok({"membership_collection": f"self.{attr} = {short(v, 50)}", "hash_based": True})
+            else:
+                rep.fail(Finding("C12-COST", ZC, "ZipContext", f"self.{attr} is not hash based: {anorm(v, ctx.p.func(ZC, 'ZipContext.__init__').node) if ctx.p.maybe_func(ZC, 'ZipContext.__init__') else norm(v)}", f"`{short(a, 60)}`: `name in self.{attr}` is evaluated once per reference of a document; on a list each test is a linear scan, so an ODT with 15 000 picture references and 15 000 entries takes 16 times as long for 5 times the input", line=a.lineno))
+    return rep
+
+
+RULES = [rule_limit, rule_amp, rule_decomp, rule_xml, rule_empty, rule_regex, rule_cost]
